@@ -284,6 +284,31 @@ def run(tier, seed, replay=None):
                     if call(less) != got:
                         bad = f"{kind}: deleting the non-firing rule #{j} changes the answer from {got!r} to {call(less)!r}"
                         break
+            if bad is None:
+                # the same expectation from the TEXT: every rule line of this family parsed on its own (the other lines -
+                # aliases, settings, other families - kept), in the order written.  The list parse_config builds must decide
+                # like the last line that fires alone: nothing between the text and the list may reorder, merge or drop rules.
+                lines = [ln for ln in sc.sub(case["config"]).split("\n") if ln.strip()]
+                mine = []
+                for k_, ln in enumerate(lines):
+                    try:
+                        one = C.parse_config(ln)
+                    except Exception:
+                        continue
+                    if len(getattr(one, FIELD[kind])) == 1 and sum(len(getattr(one, f_)) for f_ in FIELD.values()) == 1:
+                        mine.append(k_)
+                if len(mine) == len(rules) or len(mine) > 1:
+                    others = [ln for k_, ln in enumerate(lines) if k_ not in mine]
+                    want_t = None
+                    for k_ in mine:
+                        try:
+                            r1 = call(C.parse_config("\n".join(others + [lines[k_]])))
+                        except Exception:
+                            r1 = None
+                        if r1 is not None:
+                            want_t = r1
+                    if want_t != got:
+                        bad = f"{kind}: the configuration text answers {got!r}; its last rule line that fires when written alone answers {want_t!r}"
             if bad:
                 out.violations.append({"kind": "matcher", "what": bad, "case": case,
                                        "signature_text": f"matcher {kind} input={case['input']!r} config={case['config']!r}"})
@@ -411,6 +436,30 @@ def run(tier, seed, replay=None):
                                                        "signature_text": f"after-loop pattern={pat!r} exact={exact} words={ws!r}"})
         out.count("pat_matches.exhaustive", "cases", n_pm) if False else out.extra.__setitem__("pat_matches_cases", n_pm)
         out.case(["pm-exhaustive", len(pats), len(cmds)], nontrivial=True)
+
+        # ------------------------------------------------ B0. sandwiches: one pattern written twice with an overlapping rule between,
+        # every combination of decisions, on every matcher (the text-order expectation of matcher_case decides)
+        import itertools as _it
+        SANDW = {"words": [("rm -rf *", "rm -rf build", ["rm", "-rf", "build"]), ("git *", "git push *", ["git", "push", "x"]), ("zap", "zap *", ["zap", "a"]),
+                           ("frob|", "frob", ["frob"])],
+                 "redirect": [("out/*", "out/a", "out/a"), ("**", "/tmp/*.log", "/tmp/x.log")],
+                 "mcp": [("mcp__*", "mcp__gh__*", "mcp__gh__x"), ("*", "mcp__gh__x", "mcp__gh__x")]}
+        SUFFIX = {"words": "", "redirect": "-redirect", "mcp": "-mcp"}
+        for kind_, triples in SANDW.items():
+            for (p_, q_, inp_), decs in _it.product(triples, _it.product(("allow", "ask", "deny"), repeat=3)):
+                for order in ((p_, q_, p_), (q_, p_, q_), (p_, p_, q_), (p_, q_, q_)):
+                    text_t = "\n".join(f'{d}{SUFFIX[kind_]} {pt}' + (f' "M{i}"' if d != "allow" else "") for i, (d, pt) in enumerate(zip(decs, order)))
+                    mcase = {"matcher": kind_, "config": text_t, "input": inp_}
+                    matcher_case(mcase)
+                    out.case(mcase, nontrivial=True)
+        for kind_, directive in (("after", "after"), ("after_mcp", "after-mcp")):
+            for (p_, q_, inp_) in SANDW["words" if kind_ == "after" else "mcp"]:
+                for order in ((p_, q_, p_), (q_, p_, q_), (p_, p_, q_), (p_, q_, q_)):
+                    for msgs in (("m0", "m1", "m2"), ("m0", "", "m2"), ("", "m1", ""), ("m0", "m1", "")):
+                        text_t = "\n".join(f'{directive} {pt} "{m}"' if m else f"{directive} {pt}" for m, pt in zip(msgs, order))
+                        mcase = {"matcher": kind_, "config": text_t, "input": inp_}
+                        matcher_case(mcase)
+                        out.case(mcase, nontrivial=True)
 
         # ------------------------------------------------ B. rule lists: model <-> config.py
         pool = [gen_words(rng) for _ in range(40)]
